@@ -63,6 +63,8 @@ type Seq struct {
 	MS             []*MSess
 	Step           int
 	maskIDs        []string              // ids of sessions ending concurrently: which of them an announcement names is not determined
+	dropSeen       map[int]int           // session -> drops already accounted for
+	optionalTo     map[int]int           // session -> how many expected messages may be missing in this step (the router reported that it could not queue them)
 	lenientTo      map[int]bool          // sessions ending concurrently in this step: what else reaches them is not determined
 	metaRender     map[invKey]MetaRender // (caller idx, request) -> renderer of the meta RESULT
 	MetaKill       bool
@@ -348,6 +350,23 @@ func symOf(text, prefix string) (int, bool) {
 
 // Compare checks the actual messages of every session against exp.
 func (q *Seq) Compare(r *SeqRealm, what string, exp []Exp, pending *MCall) {
+	// messages the router reported it could not queue for a session (queue
+	// full) since the last comparison may be missing from what that session got
+	if q.optionalTo == nil {
+		q.optionalTo = map[int]int{}
+		defer func() { q.optionalTo = nil }()
+	}
+	if q.dropSeen == nil {
+		q.dropSeen = map[int]int{}
+	}
+	for i, s := range q.Slots {
+		if s != nil {
+			if d := DroppedTo(q.W, s.ID); d > q.dropSeen[i] {
+				q.optionalTo[i] += d - q.dropSeen[i]
+				q.dropSeen[i] = d
+			}
+		}
+	}
 	b := r.B
 	type act struct {
 		sidx int
@@ -544,6 +563,10 @@ func (q *Seq) Compare(r *SeqRealm, what string, exp []Exp, pending *MCall) {
 		}
 		if !matchOne(i) {
 			if q.lenientTo[exp[i].To] && !strings.HasPrefix(exp[i].Text, "GOODBYE(") {
+				continue
+			}
+			if q.optionalTo[exp[i].To] > 0 {
+				q.optionalTo[exp[i].To]--
 				continue
 			}
 			want := exp[i].Text
